@@ -345,6 +345,9 @@ func labelOf(t *Thread) string {
 	return fmt.Sprintf("T%d:%s:%s", t.ID, t.op.Kind, t.op.Label)
 }
 
+// maxFruitlessTimers bounds the number of consecutive timer firings that enable no thread (see pickNext).
+const maxFruitlessTimers = 20000
+
 // pickNext computes the enabled set, consults the prefix / default policy and
 // returns the thread to run next (nil if the execution ended).
 func pickNext(cur *Thread) *Thread {
@@ -361,6 +364,7 @@ func pickNext(cur *Thread) *Thread {
 			return nil
 		}
 	}
+	fruitless := 0
 	for {
 		enabled := s.enabledBuf[:0]
 		var quiescers []*Thread
@@ -380,7 +384,10 @@ func pickNext(cur *Thread) *Thread {
 		if len(enabled) == 0 {
 			if len(quiescers) > 0 {
 				enabled = quiescers[:1]
-			} else if fireNextTimer() {
+			} else if fruitless < maxFruitlessTimers && fireNextTimer() {
+				// only periodic timers (tickers nobody waits for) can fire again and again without enabling a thread;
+				// after hours of virtual time in which no thread could run the execution is a deadlock
+				fruitless++
 				continue
 			} else {
 				s.deadlock = true
